@@ -33,7 +33,8 @@
                          teach the registry names (`read_stream_learning`), learning never changes what
                          is written (`write_learned_same`, `write_pipeline_same`)
     closure              `Writable` under reverse / complement / rotate / delete / erase / insert /
-                         embed / concat (`writable_*`), `WritableRecord` under complement
+                         embed / concat (`writable_*`), `WritableRecord` under complement; `WritableRecord`
+                         (canonical locations included) under the other edits: `Gts/Props/C01Canon.lean`
     CRLF input           the CRLF translation of the written text (every line feed replaced by CR LF) read
                          by `GenBankParser`: exactly `readBackC` (`read_write_crlf_exact`) — the record of the
                          LF reading except that a value written between quotes comes back with CR LF where it
@@ -756,9 +757,11 @@ example : learnTable Registry.default fixedWitness' ≠ Registry.default := by d
 `WithBytes` build around the result `s` of an edit (models of the edits: `Gts/Model/Seq.lean`,
 `SeqNuc.lean`; the header `F` is untouched: `GenBankFields` is neither `Shiftable` nor
 `Expandable`).  These theorems cover the part of the domain that `Writable` states — header, keys,
-qualifiers, residues, LOCUS length.  NOT covered: that the edited LOCATIONS are again canonical
-(`Loc.canonP`, needed for `LocRT`; that is a statement about `Reverse` / `Expand` / `Normalize` and
-the join reduction, C02–C06), and `gts.Slice`, whose `GenBankFields.Slice` rewrites the header
+qualifiers, residues, LOCUS length.  That the edited LOCATIONS are again canonical (`Loc.canonP`,
+needed for `LocRT`) is a statement about `Shift` / `Expand` / `Reverse` / `Normalize` and the join
+reduction: `Gts/Props/C06.lean` (location level) and `Gts/Props/C01Canon.lean` (`WritableRecord` under
+insert / embed / concat / delete / erase / reverse / rotate, with the K3 guards where the full
+statement is false).  NOT covered: `gts.Slice`, whose `GenBankFields.Slice` rewrites the header
 (REGION, clipped and renumbered references). -/
 
 /-- **Frame.**  `Writable` looks at the table only through key and `Props` of each feature and at
